@@ -225,6 +225,73 @@ def child(job):
     return {"cases": out, "numbers": nums}
 
 
+# ---- Enum by value: the canonical text of a member's value, in every text carrier, finds the member again
+ENUM_SRC = """
+import enum
+class Version(enum.Enum):
+    ONE = "1"
+    PI = "3.14"
+    YES = "true"
+    NIL = "null"
+    PAIR = "1,2"
+    LIST = "[1]"
+    NAME = "stable"
+    DOTTED = "v1.2"
+    QUOTED = "it's"
+class Level(enum.Enum):
+    LOW = 1
+    HIGH = 2
+    TOP = 10
+class Ratio(enum.Enum):
+    HALF = 0.5
+    WHOLE = 1.5
+class Code(enum.IntEnum):
+    A = 7
+    B = 8
+class Word(str, enum.Enum):
+    ON = "on"
+    NUM = "12"
+"""
+
+
+def _enum_child(_job):
+    import warnings
+    warnings.simplefilter("ignore")
+    import typelib
+    ns = {}
+    exec(ENUM_SRC, ns)
+    bad = []
+    n = 0
+    for cname in ("Version", "Level", "Ratio", "Code", "Word"):
+        E = ns[cname]
+        for m in E:
+            text = str(m.value)
+            w = typelib.marshal(m, t=E)
+            if w != m.value or type(w) is not type(m.value):
+                bad.append(f"marshal({m!r}) = {w!r}, the member's value is {m.value!r}")
+            carriers = {"str": text, **{c: mk(text) for c, mk in enc.CARRIERS.items()}}
+            for c, tx in carriers.items():
+                n += 1
+                try:
+                    r = typelib.unmarshal(E, tx)
+                except Exception as e:  # noqa: BLE001
+                    r = f"raised {type(e).__name__}"
+                if r is not m:
+                    bad.append(f"unmarshal({cname}, {c} {text!r}) -> {r!r}, expected {m!r}")
+    return {"bad": bad, "n": n}
+
+
+def enum_text_probe(res):
+    o = iso.map_isolated(_enum_child, [None], timeout=60.0)[0]
+    if not isinstance(o, dict) or "bad" not in o:
+        raise RuntimeError(f"harness: enum text probe failed: {o}")
+    res.case({"family": "enum-by-value-text"}, True)
+    for b in o["bad"]:
+        res.failures.append({"what": b, "input": {"enum_text": True}})
+    if not o["bad"]:
+        res.count("oracle:enum-value-text-finds-member", o["n"])
+
+
 def explore(ctx):
     res = Result()
     res.rule = RULE
@@ -297,6 +364,7 @@ def explore(ctx):
                 res.count("oracle:ok:number")
     if ctx.tier == "thorough" and ctx.scale == 1.0:
         res.extra["calendar_law"] = calendar_exhaustive(res)
+    enum_text_probe(res)
     return res
 
 
@@ -337,6 +405,10 @@ def witness(fid):
 def replay(failure):
     inp = failure["input"]
     core.import_typelib()
+    if "enum_text" in inp:
+        o = iso.map_isolated(_enum_child, [None], timeout=60.0)[0]
+        print(json.dumps(o, indent=1, default=str)[:3000])
+        return bool(o.get("bad")) if isinstance(o, dict) else True
     if "number" in inp:
         out = iso.map_isolated(child, [{"cases": [], "numbers": [inp["number"]]}])[0]
         print(json.dumps(out, indent=1)[:2000])
